@@ -88,9 +88,10 @@ def main(tier, seed, replay=None):
     hists = rr.tlc_histories(PID, 3)
     progs = rewrite_gen.corpus(seed, T["programs"], vlib.REPO)
     violations = []
-    tot = {"runs": 0, "steps": 0, "steps_text_changed": 0, "findings_base": 0, "ids": {}, "sev": {}, "witness_runs": 0, "witness_ok": 0}
+    tot = {"runs": 0, "steps": 0, "steps_text_changed": 0, "findings_base": 0, "ids": {}, "sev": {}, "witness_runs": 0, "witness_ok": 0, "distinct_pairs": 0}
     nsteps_judged = 0
     driver_bad = []
+    run_samples = []
     first_letters = set()
     for b0 in range(0, len(progs), T["batch"]):
         batch = progs[b0:b0 + T["batch"]]
@@ -106,8 +107,10 @@ def main(tier, seed, replay=None):
         nsteps_judged += n
         driver_bad += drv
         violations += violations_of(dev, index, batch)
-        for k in ("runs", "steps", "steps_text_changed", "findings_base", "witness_runs", "witness_ok"):
+        for k in ("runs", "steps", "steps_text_changed", "findings_base", "witness_runs", "witness_ok", "distinct_pairs"):
             tot[k] += stats[k]
+        if len(run_samples) < 2:
+            run_samples += stats["samples"][:2 - len(run_samples)]
         for k in ("ids", "sev"):
             for a, c in stats[k].items():
                 tot[k][a] = tot[k].get(a, 0) + c
@@ -116,15 +119,15 @@ def main(tier, seed, replay=None):
     models = [f.result() for f in model_futs]
     pool.shutdown()
     rc_, new, known = vlib.verdict(PID, violations)
-    cov = {"evaluations": nsteps_judged, "distinct_nontrivial": tot["steps_text_changed"],
-           "rule": "one evaluation per judged history step (observation before / after one rewrite, per language); non-trivial = the "
-                   "rewrite changed the rendered text; distinct renderings analysed = cppcheck_runs",
+    cov = {"evaluations": nsteps_judged, "distinct_nontrivial": tot["distinct_pairs"], "steps_with_changed_text": tot["steps_text_changed"],
+           "rule": "one evaluation per judged history step (observation before / after one rewrite, per language); distinct non-trivial = distinct "
+                   "(program, language, rewrite kind, text before, text after) with different texts; distinct renderings analysed = cppcheck_runs",
            "exhaustive": False, "programs": len(progs), "histories_enumerated_by_tlc": len(hists),
            "histories_per_program": T["chains"] * 3, "cppcheck_runs": tot["runs"], "first_letters_covered": len(first_letters),
            "findings_in_base_renderings": tot["findings_base"], "distinct_ids": len(tot["ids"]), "ids": tot["ids"], "severities": tot["sev"],
            "second_witness_runs": tot["witness_runs"], "second_witness_accepts": tot["witness_ok"],
            "states": sum(m["distinct"] for m in models), "deviation_classes": len(violations), "known": known,
-           "samples": models + [{"program": progs[0]["name"], "origin": progs[0]["origin"]}, {"program": progs[-1]["name"], "origin": progs[-1]["origin"]},
+           "samples": run_samples + models + [{"program": progs[0]["name"], "origin": progs[0]["origin"]}, {"program": progs[-1]["name"], "origin": progs[-1]["origin"]},
                                 {"history": hists[len(hists) // 2]}]}
     vlib.write_evidence(PID, tier, seed, "exploration", cov, time.time() - t0, violations=new,
                         assumptions=["meaning preservation of the rewrites is by construction (structured form, collision-free renaming, "
